@@ -136,10 +136,26 @@ impl<R: Read> PgnRawParser<R> {
         Ok(())
     }
 
+    /// Skips the rest of the current line; the last line may end with the input instead of a newline
     fn skip_to_next_line(&mut self) -> Result<(), PgnRawParserError> {
-        while self.pop_byte()? != b'\n' {};
+        while let Ok(byte) = self.pop_byte() {
+            if byte == b'\n' { break; }
+        }
 
         Ok(())
+    }
+
+    /// Reads up to (excluding) the next space, newline or the end of the input
+    fn read_token(&mut self) -> Result<String, PgnRawParserError> {
+        let mut result = String::new();
+
+        while let Ok(byte) = self.peek_byte() {
+            if byte == b' ' || byte == b'\n' { break; }
+            result.push(byte as char);
+            self.skip_byte()?;
+        }
+
+        Ok(result)
     }
 
     fn read_until(&mut self, byte: u8) -> Result<String, PgnRawParserError> {
@@ -206,21 +222,15 @@ impl<R: Read> PgnRawParser<R> {
     fn read_move(&mut self) -> Result<Option<PgnRawAnnotatedMove>, PgnRawParserError> {
         self.skip_blank_lines_and_spaces()?;
 
-        let token = self.read_until(b' ')?;
+        let token = self.read_token()?;
 
-        let mut chars = token.chars();
-        if chars.next() == Some('*') {
-            return Ok(None);
-        }
-
-        if let Some('-' | '/') = chars.next() {
-            self.skip_to_next_line()?;
+        if matches!(token.as_str(), "1-0" | "0-1" | "1/2-1/2" | "*") {
             return Ok(None);
         }
 
         let mv = if token.contains('.') {
             self.skip_spaces()?;
-            self.read_until(b' ')?
+            self.read_token()?
         } else {
             token
         };
